@@ -710,6 +710,14 @@ func deps(v ssa.Value, opt depOpts) map[ssa.Value]bool {
 			}
 			return
 		case *ssa.Call:
+			if b, isB := x.Call.Value.(*ssa.Builtin); isB && (b.Name() == "min" || b.Name() == "max") {
+				// value-combining builtins: a clamp written with min/max depends on its
+				// arguments exactly like the if-form does through its φ
+				for _, a := range x.Call.Args {
+					walk(a)
+				}
+				return
+			}
 			if opt.throughCalls {
 				for _, a := range x.Call.Args {
 					walk(a)
